@@ -28,7 +28,8 @@ func init() {
 	add(&quick, "ZZ_C04_Varint", "n in [0,2^33], max in [1,2^40] (symbolic)")
 	bFrag := "body lengths 0..3 (case-split), contents symbolic, wire read with <=2 arbitrary split points (frag=1) or byte by byte (frag=2), last fragment with or without io.EOF"
 	// (w, order, off, strip, adj, frames, frag)
-	for _, c := range [][]int64{{1, 0, 0, 1, 0, 2, 1}, {2, 1, 1, 0, 0, 2, 1}, {2, 0, 0, 2, -1, 2, 1}, {4, 1, 2, 3, 1, 1, 2}, {8, 0, 0, 8, 0, 1, 1}, {2, 1, 2, 4, -2, 2, 2}} {
+	for _, c := range [][]int64{{1, 0, 0, 1, 0, 2, 1}, {2, 1, 1, 0, 0, 2, 1}, {2, 0, 0, 2, -1, 2, 1}, {4, 1, 2, 3, 1, 1, 2}, {8, 0, 0, 8, 0, 1, 1}, {2, 1, 2, 4, -2, 2, 2},
+		{2, 0, 0, 4, 2, 2, 1}, {1, 1, 0, 2, 1, 2, 2}, {2, 1, 1, 4, 1, 2, 1}} { // the last three strip past the length field into the (guaranteed) rest of the frame
 		add(&quick, "ZZ_C04_FragLengthField", bFrag, c...)
 	}
 	for _, w := range []int64{1, 2, 4, 8} {
@@ -73,6 +74,9 @@ func init() {
 	for k := int64(0); k < 4; k++ {
 		add(&quick, "ZZ_C04_TwoEncodes", "two encodes by one codec instance, outputs retained; body lengths 0..3 and 100..299", k)
 	}
+	for k := int64(0); k <= 5; k++ {
+		add(&quick, "ZZ_C04_AdjacentPayloads", "two payloads of 1..3 bytes that are adjacent views of one array with spare capacity, encoded one after the other by each encoder", k)
+	}
 	for _, c := range [][]int64{{2, 1}, {2, 2}} {
 		add(&quick, "ZZ_C04_Fixed", "fixed length 1..4 (case-split), two frames, "+bFrag, c...)
 	}
@@ -87,7 +91,7 @@ func init() {
 	Specs["C04"] = &Spec{
 		Jobs: jobsBy(quick, thorough),
 		MustReach: []string{"c04-encoder-rejects", "c04-roundtrip", "c04-codec-roundtrip", "c04-varint-roundtrip", "c04-varint-encoder-rejects",
-			"c04-frag-lengthfield-done", "c04-frag-varint-done", "c04-delimiter-done", "c04-fixed-done", "c04-passthrough-done", "c04-carriers-done", "c04-two-encodes-done"},
+			"c04-frag-lengthfield-done", "c04-frag-varint-done", "c04-delimiter-done", "c04-fixed-done", "c04-passthrough-done", "c04-carriers-done", "c04-two-encodes-done", "c04-adjacent-done"},
 		Bounds: map[string]string{
 			"quick":    "boundary family: length-field widths 1/2/4/8, both byte orders, includes-length on/off, strip on/off, body length symbolic over [0,2^33] (crosses 2^8, 2^16, 2^32; [0,600] in the configurations that deliver the header with the body), adjustment symbolic in [-4,4], varint max symbolic in [1,2^40]; fragmentation family: bodies of 0..3 bytes, up to two frames back to back, every fragmentation with at most two short reads at arbitrary positions plus the all-single-byte fragmentation, final fragment with and without io.EOF, decoder offsets 0..2, strips 0..header, adjustments -2..2 on 6 configurations; delimiter (1 and 2 bytes), fixed length 1..4, variable-length and packet codecs; 8 carrier types into both length-prefixing encoders",
 			"thorough": "as quick plus all 32 prepender configurations, all 8 codec configurations, 96 fragmentation configurations of the length-field decoder, all delimiter/carrier/strip combinations",
